@@ -31,6 +31,23 @@
 (*                                                                         *)
 (* Parameter and return values are the value records of MockValueOps;      *)
 (* an expectation matches an actual parameter by Eq(expected, actual).     *)
+(*                                                                         *)
+(* User types (withParameterOfType / withOutputParameterOfType...): every  *)
+(* scope owns a repository of comparators and copiers - a list of          *)
+(* installations [type name, comparison function, copy function], the most *)
+(* recent first; the first entry for a type name that has the wanted       *)
+(* function is the one in force.  installComparator / installCopier on a   *)
+(* scope adds to that scope only - on the global scope also to every child *)
+(* that exists; a child created afterwards starts with a copy of the       *)
+(* global repository; removeAllComparatorsAndCopiers empties the scope's   *)
+(* repository (the global one: every child's too); clear() destroys the    *)
+(* children and keeps the global repository.  The functions are data here: *)
+(* a comparison MODE ("whole": all fields of the object, "first": its      *)
+(* first field only) and a copy MODE ("plain": the bytes, "inv": every     *)
+(* byte inverted).  An expectation binds the function in force in its      *)
+(* scope when the parameter is attached (value field cmp / output field    *)
+(* cpy); an actual parameter of a user type needs a comparator in its      *)
+(* scope ("nocompare" otherwise).  Type names are data (strings).          *)
 (***************************************************************************)
 EXTENDS MockValueOps
 
@@ -44,7 +61,9 @@ CONSTANTS Scopes,     \* scope names in play; "" (the global scope) must be amon
           Rets,       \* return values (value records; NoVal = no return value)
           MaxExp, Ns, MaxCalls,
           RetGetters,           \* the ways a return value is read in the enumerated domain: records [g, od, d]
-          LateExpect, Toggles   \* model-checking switches: expectations after the first call / disable-enable explored
+          LateExpect, Toggles,  \* model-checking switches: expectations after the first call / disable-enable explored
+          MaxInst,              \* enumeration bound: installations (comparators + copiers) per scope; 0 = none explored
+          DKeys, DVals          \* data store keys and values explored ({} = the data store is not explored)
 
 NoVal == [t |-> "none"]
 Global == ""
@@ -53,7 +72,31 @@ Global == ""
 \* expectation: [fn, obj (0 = any object), ins : name -> value, outs : name -> [ty, data], ign, n, ret, lo, hi]
 \* (lo, hi) = strict-order window, (0, 0) when created without strict ordering
 \* call (in progress / completed): [fn, obj (0 = not called on an object), given : name -> value, gout : name -> ty]
-CompatIn(e, k, v) == IF k \in DOMAIN e.ins THEN Eq(e.ins[k], v) ELSE e.ign
+\* ---------------------------------------------------------------- user types: comparators and copiers
+\* object value: [t = "obj", tn (type name), c (content: a tuple of fields)]; in an expectation also cmp, the comparison
+\* mode bound when the parameter was attached ("none": no comparator was installed then - such a value equals nothing)
+CmpModes == {"whole", "first"}
+CpyModes == {"plain", "inv"}
+CmpNode(tn, md) == [tn |-> tn, cmp |-> md, cpy |-> "none"]
+CpyNode(tn, md) == [tn |-> tn, cmp |-> "none", cpy |-> md]
+FirstIdx(S) == CHOOSE i \in S : \A j \in S : i <= j
+\* the function in force for a type name: the first entry (most recent first) that has one
+CmpOf(repo, tn) == LET I == { i \in 1..Len(repo) : repo[i].tn = tn /\ repo[i].cmp # "none" } IN IF I = {} THEN "none" ELSE repo[FirstIdx(I)].cmp
+CpyOf(repo, tn) == LET I == { i \in 1..Len(repo) : repo[i].tn = tn /\ repo[i].cpy # "none" } IN IF I = {} THEN "none" ELSE repo[FirstIdx(I)].cpy
+\* a new child scope receives the global scope's entries one by one, each put in front of the previous ones
+\* (MockSupport::clone -> installComparatorsAndCopiers): its list is the global list in reverse
+Inherited(repo) == [i \in 1..Len(repo) |-> repo[Len(repo) + 1 - i]]
+ObjEq(md, x, y) == /\ x.tn = y.tn
+                   /\ CASE md = "whole" -> x.c = y.c
+                        [] md = "first" -> x.c[1] = y.c[1]
+                        [] OTHER -> FALSE
+\* equals() with the expectation as the receiver: its own comparator decides for objects
+EqP(a, b) == IF a.t = "obj" THEN b.t = "obj" /\ ObjEq(a.cmp, a, b) ELSE Eq(a, b)
+BindIn(repo, v) == IF v.t = "obj" THEN [t |-> "obj", tn |-> v.tn, c |-> v.c, cmp |-> CmpOf(repo, v.tn)] ELSE v
+BindOut(repo, o) == [ty |-> o.ty, data |-> o.data, cpy |-> IF o.ty = "raw" THEN "raw" ELSE CpyOf(repo, o.ty)]
+Copied(o) == IF o.cpy = "inv" THEN [i \in 1..Len(o.data) |-> 255 - o.data[i]] ELSE o.data
+
+CompatIn(e, k, v) == IF k \in DOMAIN e.ins THEN EqP(e.ins[k], v) ELSE e.ign
 CompatOut(e, k, ty) == IF k \in DOMAIN e.outs THEN e.outs[k].ty = ty ELSE e.ign
 CompatObj(e, o) == e.obj = 0 \/ e.obj = o
 HasAllParams(e, c) == DOMAIN e.ins \subseteq DOMAIN c.given /\ DOMAIN e.outs \subseteq DOMAIN c.gout
@@ -74,7 +117,11 @@ DoubleMayCoincide(x, y) ==
     /\ \/ XSame(x.v, y.v)
        \/ x.tol.k = "inf" \/ y.tol.k = "inf"
        \/ (x.v.k = "fin" /\ y.v.k = "fin" /\ Abs(x.v.q - y.v.q) <= x.tol.q + y.tol.q)
-MayCoincide(x, y) == IF x.t = "double" /\ y.t = "double" THEN DoubleMayCoincide(x, y) ELSE Eq(x, y) \/ Eq(y, x)
+ObjMayCoincide(x, y) == /\ x.tn = y.tn /\ x.cmp # "none" /\ y.cmp # "none" /\ x.c[1] = y.c[1]
+                        /\ (x.cmp = "whole" /\ y.cmp = "whole") => x.c = y.c
+MayCoincide(x, y) == IF x.t = "double" /\ y.t = "double" THEN DoubleMayCoincide(x, y)
+                     ELSE IF x.t = "obj" /\ y.t = "obj" THEN ObjMayCoincide(x, y)
+                     ELSE EqP(x, y) \/ EqP(y, x)
 \* some call fits both expectations
 JointlySatisfiable(e1, e2) ==
     /\ e1.fn = e2.fn
@@ -88,10 +135,10 @@ Unambiguous(es) == \A i, j \in 1..Len(es) : (i < j /\ JointlySatisfiable(es[i], 
 
 \* ---------------------------------------------------------------- one scope
 NoCall == [phase |-> "none", fn |-> "", given |-> <<>>, gout |-> <<>>, obj |-> 0, cand |-> {}, match |-> 0, order |-> 0]
-Scope(live, ign, en, st) ==
+Scope(live, ign, en, st, repo) ==
     [live |-> live, exps |-> <<>>, used |-> <<>>, ooo |-> {}, strict |-> st, expOrder |-> 0, actOrder |-> 0,
-     ignoreOthers |-> ign, enabled |-> en, cur |-> NoCall, made |-> <<>>, data |-> <<>>]
-Absent == Scope(FALSE, FALSE, TRUE, FALSE)
+     ignoreOthers |-> ign, enabled |-> en, cur |-> NoCall, made |-> <<>>, data |-> <<>>, repo |-> repo]
+Absent == Scope(FALSE, FALSE, TRUE, FALSE, <<>>)
 
 Names(m, fn) == { i \in 1..Len(m.exps) : m.exps[i].fn = fn }
 Min(S) == CHOOSE i \in S : \A j \in S : i <= j
@@ -132,6 +179,7 @@ BeginIn(m0, fn) ==
 \* withParameter(k, v)
 ParamIn(m, k, v) ==
     IF m.cur.phase = "ignored" THEN [m |-> m, cats |-> {}]
+    ELSE IF v.t = "obj" /\ CmpOf(m.repo, v.tn) = "none" THEN [m |-> [m EXCEPT !.cur.phase = "failed"], cats |-> {"nocompare"}]
     ELSE LET c == m.cur
              c2 == { i \in c.cand : CompatIn(m.exps[i], k, v) }
          IN IF c2 = {}
@@ -160,14 +208,15 @@ ObjectIn(m, o) ==
          IN IF c2 = {} THEN [m |-> [m EXCEPT !.cur.phase = "failed"], cats |-> {"badobject"}]
             ELSE [m |-> [m EXCEPT !.cur.cand = c2, !.cur.obj = o], cats |-> {}]
 
-\* the caller's output buffers are BufLen bytes, pre-filled with FillByte; the expectation's data overwrites a prefix
+\* the caller's output buffers are BufLen bytes, pre-filled with FillByte; the expectation's data - for a user type: as its
+\* copier (bound by the expectation) writes it - overwrites a prefix
 BufLen == 8
 FillByte == 238
 Filled(d) == d \o [i \in 1..(BufLen - Len(d)) |-> FillByte]
 \* what the finished call hands back: return value and the data for the output parameters it was given
 RetOf(m) == IF m.cur.phase = "done" THEN m.exps[m.cur.match].ret ELSE NoVal
 OutsOf(m) == IF m.cur.phase = "done"
-             THEN LET x == m.exps[m.cur.match] IN [k \in DOMAIN m.cur.gout \cap DOMAIN x.outs |-> Filled(x.outs[k].data)]
+             THEN LET x == m.exps[m.cur.match] IN [k \in DOMAIN m.cur.gout \cap DOMAIN x.outs |-> Filled(Copied(x.outs[k]))]
              ELSE <<>>
 
 -----------------------------------------------------------------------------
@@ -179,12 +228,12 @@ VARIABLES ms,       \* [Scopes -> scope state]
           res       \* its observable result: [k |-> "ok" | category | "skipped", ...]
 vars == <<ms, created, failed, why, last, res>>
 
-FreshScopes == [s \in Scopes |-> IF s = Global THEN Scope(TRUE, FALSE, TRUE, FALSE) ELSE Absent]
+FreshScopes == [s \in Scopes |-> IF s = Global THEN Scope(TRUE, FALSE, TRUE, FALSE, <<>>) ELSE Absent]
 Init == /\ ms = FreshScopes /\ created = <<>> /\ failed = FALSE /\ why = "" /\ last = "init" /\ res = [k |-> "ok"]
 
-\* mock(s): a child scope is created on first use and inherits the global scope's flags
+\* mock(s): a child scope is created on first use and inherits the global scope's flags, comparators and copiers
 Touched(s) == IF ms[s].live THEN ms
-              ELSE [ms EXCEPT ![s] = Scope(TRUE, ms[Global].ignoreOthers, ms[Global].enabled, ms[Global].strict)]
+              ELSE [ms EXCEPT ![s] = Scope(TRUE, ms[Global].ignoreOthers, ms[Global].enabled, ms[Global].strict, Inherited(ms[Global].repo))]
 CreatedAfter(s) == IF ms[s].live THEN created ELSE Append(created, s)
 Ok == [k |-> "ok"]
 Passed(okres) == failed' = FALSE /\ why' = "" /\ res' = okres
@@ -204,7 +253,8 @@ Expect(s, e) ==
        /\ LET m == Touched(s)[s] IN
           IF ~m.enabled THEN Outcome(s, [m |-> m, cats |-> {}], Ok)
           ELSE LET w == IF m.strict THEN [lo |-> m.expOrder + 1, hi |-> m.expOrder + e.n] ELSE [lo |-> 0, hi |-> 0]
-                   x == [fn |-> e.fn, obj |-> e.obj, ins |-> e.ins, outs |-> e.outs, ign |-> e.ign, n |-> e.n, ret |-> e.ret,
+                   x == [fn |-> e.fn, obj |-> e.obj, ins |-> [k \in DOMAIN e.ins |-> BindIn(m.repo, e.ins[k])],
+                         outs |-> [k \in DOMAIN e.outs |-> BindOut(m.repo, e.outs[k])], ign |-> e.ign, n |-> e.n, ret |-> e.ret,
                          lo |-> w.lo, hi |-> w.hi]
                IN Outcome(s, [m |-> [m EXCEPT !.exps = Append(@, x), !.used = Append(@, 0),
                                               !.expOrder = IF m.strict THEN @ + e.n ELSE @], cats |-> {}], Ok)
@@ -309,9 +359,25 @@ IgnoreOtherCalls == Dead("ignoreothers") \/ (Plain("ignoreothers") /\ SetAll(LAM
 StrictOrder(s) == \/ Dead("strict")
                   \/ /\ ~failed /\ last' = "strict" /\ res' = Ok /\ UNCHANGED <<failed, why>>
                      /\ ms' = [Touched(s) EXCEPT ![s].strict = TRUE] /\ created' = CreatedAfter(s)
-\* clear(): everything forgotten, child scopes destroyed
+\* clear(): everything forgotten, child scopes destroyed; the global scope keeps its comparators and copiers
 Clear == \/ Dead("clear")
-         \/ /\ ~failed /\ last' = "clear" /\ res' = Ok /\ UNCHANGED <<failed, why>> /\ created' = <<>> /\ ms' = FreshScopes
+         \/ /\ ~failed /\ last' = "clear" /\ res' = Ok /\ UNCHANGED <<failed, why>> /\ created' = <<>>
+            /\ ms' = [FreshScopes EXCEPT ![Global].repo = ms[Global].repo]
+\* installComparator / installCopier on scope s: a new entry in front of the scope's list; from the global scope it
+\* reaches every child that exists
+Install(op, s, node) ==
+    \/ Dead(op)
+    \/ /\ ~failed /\ last' = op /\ res' = [k |-> "ok", s |-> s] /\ UNCHANGED <<failed, why>> /\ created' = CreatedAfter(s)
+       /\ LET t == Touched(s) IN
+          ms' = [x \in Scopes |-> IF t[x].live /\ (x = s \/ s = Global) THEN [t[x] EXCEPT !.repo = <<node>> \o @] ELSE t[x]]
+InstallComparator(s, tn, md) == Install("installcmp", s, CmpNode(tn, md))
+InstallCopier(s, tn, md) == Install("installcpy", s, CpyNode(tn, md))
+\* removeAllComparatorsAndCopiers on scope s (from the global scope: every child too)
+RemoveAll(s) ==
+    \/ Dead("removeall")
+    \/ /\ ~failed /\ last' = "removeall" /\ res' = [k |-> "ok", s |-> s] /\ UNCHANGED <<failed, why>> /\ created' = CreatedAfter(s)
+       /\ LET t == Touched(s) IN
+          ms' = [x \in Scopes |-> IF t[x].live /\ (x = s \/ s = Global) THEN [t[x] EXCEPT !.repo = <<>>] ELSE t[x]]
 \* the end of the test: the verdict is the first failure, or else what checkExpectations says now (MockSupportPlugin);
 \* then everything is cleared for the next test
 \* number of failures the test records: the first failure ends a test at once; the end-of-test check reports each
@@ -333,12 +399,26 @@ ExpSet == [fn : Fns, obj : {0} \cup Objs, ins : Assign(PNames, Vals), outs : Ass
 OTypes == { d.ty : d \in OData }
 NCalls == LET RECURSIVE S(_) S(T) == IF T = {} THEN 0 ELSE LET s == CHOOSE s \in T : TRUE IN ms[s].actOrder + S(T \ {s}) IN S(Scopes)
 NExp(s) == Len(ms[s].exps)
-WouldBe(s, e) == Append(Touched(s)[s].exps, e)
+Bound(m, e) == [fn |-> e.fn, obj |-> e.obj, ins |-> [k \in DOMAIN e.ins |-> BindIn(m.repo, e.ins[k])],
+                outs |-> [k \in DOMAIN e.outs |-> BindOut(m.repo, e.outs[k])], ign |-> e.ign, n |-> e.n, ret |-> e.ret]
+WouldBe(s, e) == Append(Touched(s)[s].exps, Bound(Touched(s)[s], e))
+\* the frame of the model: an output parameter of a user type is expected only where a copier for the type is in force
+\* (the "No way to copy" failure is not modelled)
+CopiersPresent(s, e) == \A k \in DOMAIN e.outs : e.outs[k].ty # "raw" => CpyOf(Touched(s)[s].repo, e.outs[k].ty) # "none"
+\* comparators and copiers are removed only while no expectation (which may have bound one) exists
+NoExpectations == \A s \in Scopes : Len(ms[s].exps) = 0
+ObjTNames == { v.tn : v \in { x \in Vals : x.t = "obj" } }
+NInst(s) == Len(Touched(s)[s].repo)
 AnyOpen == \E s \in Scopes : ms[s].cur.phase = "open"
 Next ==
     /\ ~failed /\ last # "check"
     /\ \/ \E s \in Scopes, e \in ExpSet : /\ NExp(s) < MaxExp /\ (LateExpect \/ NCalls = 0)
-                                          /\ Unambiguous(WouldBe(s, e)) /\ Expect(s, e)
+                                          /\ CopiersPresent(s, e) /\ Unambiguous(WouldBe(s, e)) /\ Expect(s, e)
+       \/ \E s \in Scopes, tn \in ObjTNames, md \in CmpModes : NInst(s) < MaxInst /\ InstallComparator(s, tn, md)
+       \/ \E s \in Scopes, tn \in OTypes \ {"raw"}, md \in CpyModes : NInst(s) < MaxInst /\ InstallCopier(s, tn, md)
+       \/ \E s \in Scopes : MaxInst > 0 /\ NoExpectations /\ NInst(s) > 0 /\ RemoveAll(s)
+       \/ \E s \in Scopes, k \in DKeys, v \in DVals : SetData(s, k, v)
+       \/ \E s \in Scopes, k \in DKeys : GetData(s, k)
        \/ \E s \in Scopes, fn \in Fns : NCalls < MaxCalls /\ Begin(s, fn)
        \/ \E s \in Scopes, k \in PNames, v \in Vals : Param(s, k, v)
        \/ \E s \in Scopes, k \in ONames, ty \in OTypes : OutParam(s, k, ty)
@@ -370,7 +450,24 @@ MultisetsEqual(m) == /\ \A i \in 1..Len(m.exps) : CountFits(m, i) = ClassN(m, i)
                      /\ \A j \in 1..Len(m.made) : \E i \in 1..Len(m.exps) : Fits(m.exps[i], m.made[j])
 GhostPass(m) == MultisetsEqual(m) /\ (AllWindowed(m) /\ m.strict => OrderAgrees(m))
 
+\* user types: every installation is well formed; an expectation holds the function that was in force, or none
+ReposOK == \A s \in Scopes :
+              /\ \A i \in 1..Len(ms[s].repo) : LET n == ms[s].repo[i] IN
+                     /\ n.cmp \in CmpModes \cup {"none"} /\ n.cpy \in CpyModes \cup {"none"} /\ (n.cmp # "none" \/ n.cpy # "none")
+              /\ ~ms[s].live => ms[s].repo = <<>>
+              /\ \A i \in 1..Len(ms[s].exps) : LET x == ms[s].exps[i] IN
+                     /\ \A k \in DOMAIN x.ins : x.ins[k].t = "obj" => x.ins[k].cmp \in CmpModes \cup {"none"}
+                     /\ \A k \in DOMAIN x.outs : x.outs[k].cpy \in (IF x.outs[k].ty = "raw" THEN {"raw"} ELSE CpyModes)
+\* an installation or removal in a child scope leaves every other scope's comparators and copiers alone, and nothing but
+\* clear() / the end of the test / a removal changes what an existing scope has installed
+InstallIsLocal ==
+    [][(last' \in {"installcmp", "installcpy", "removeall"} /\ res'.k = "ok" /\ res'.s # Global) =>
+           \A x \in Scopes \ {res'.s} : ms'[x].repo = ms[x].repo]_vars
+BoundFunctionsStay ==
+    [][\A s \in Scopes : \A i \in 1..Len(ms[s].exps) :
+           Len(ms'[s].exps) >= i => (ms'[s].exps[i].ins = ms[s].exps[i].ins /\ ms'[s].exps[i].outs = ms[s].exps[i].outs)]_vars
 TypeOK == /\ failed \in BOOLEAN /\ (failed <=> why # "") /\ \A s \in Scopes : ms[s].live \in BOOLEAN /\ Len(ms[s].used) = Len(ms[s].exps)
+          /\ ReposOK
           /\ ms[Global].live /\ \A i \in 1..Len(created) : ms[created[i]].live /\ created[i] # Global
 DomainUnambiguous == \A s \in Scopes : Unambiguous(ms[s].exps)
 NeverOverConsumed == \A s \in Scopes : \A i \in 1..Len(ms[s].exps) : ms[s].used[i] <= ms[s].exps[i].n
